@@ -47,7 +47,7 @@ ASSUMPTIONS = ['TileWalker processes exactly the meta tiles of the selected leve
                'checked per case in Coq on the recorded walk)',
                'tiles of the contents lie inside the grid; quadkey layout only with grids of 2^z tiles per axis (F4)',
                'localtime = UTC for the SQLite datetime comparison; file system keeps sub-second mtimes',
-               'coverages are axis-parallel boxes that overlap a meta tile either not at all or by at least half a tile '
+               'coverages are axis-parallel boxes inside the grid bbox that overlap a meta tile either not at all or by at least half a tile '
                '(no slivers below the 1/10 pixel inset of get_affected_level_tiles)']
 EXPLANATION = ('remaining = spec_remaining proved per strategy for all contents/tasks; F15 (dimension directories) is refuted '
                'on the model and reproduced on the implementation as known finding')
@@ -549,6 +549,12 @@ def gen_case(rng, backend=None, grid=None, force=None):
             if rng.random() < 0.2:
                 xs = [-2, nx + 2]
             cov = [bbox[0] + xs[0] * half, bbox[1] + ys[0] * half, bbox[0] + xs[1] * half, bbox[1] + ys[1] * half]
+    if not complete:
+        # keep the coverage inside the grid: where a meta tile overhangs the grid (grid size not a multiple of the
+        # meta size) the walk reaches it through its ancestors only, so "intersects" is meant inside the grid
+        cov = [max(cov[0], bbox[0]), max(cov[1], bbox[1]), min(cov[2], bbox[2]), min(cov[3], bbox[3])]
+        if cov[0] >= cov[2] or cov[1] >= cov[3]:
+            cov = [bbox[0], bbox[1], bbox[0] + 3 * half, bbox[1] + 2 * half]
     # tiles
     entries = []
     seen = set()
